@@ -147,6 +147,22 @@ theorem hb_of_postJoin {tr : Trace} (wf : WF tr) {i j : Nat} {a b : Event} (ha :
   have e2 : Edge tr s j := edge_po hsj hjn hb htid
   exact ⟨Nat.lt_trans his hsj, .step e1 (.base e2)⟩
 
+theorem cacheLookup_eq (disc : List (Nat × LDisc)) (cache : Option (Nat × Option LDisc)) (loc : Nat)
+    (hc : ∀ l d, cache = some (l, d) → d = lookup disc l) : cacheLookup disc cache loc = lookup disc loc := by
+  unfold cacheLookup
+  cases cache with
+  | none => rfl
+  | some ld =>
+    obtain ⟨l, d⟩ := ld
+    by_cases h : (l == loc) = true
+    · have hl : l = loc := by simpa using h
+      have hd' := hc l d rfl
+      rw [hl] at hd'
+      simp only [h, if_true]
+      exact hd'
+    · simp only [h]
+      rfl
+
 /-- `checkFrom` with a consistent cache is `factOK ∨ isKnown` on every fact. -/
 theorem checkFrom_iff (disc : List (Nat × LDisc)) (roles : List (Nat × Role))
     (known : List (Nat × Nat × AKind)) (fs : List Fact) :
@@ -157,23 +173,8 @@ theorem checkFrom_iff (disc : List (Nat × LDisc)) (roles : List (Nat × Role))
   | nil => intro cache _; simp [checkFrom]
   | cons f fs ih =>
     intro cache hc
-    have hd : (match cache with
-        | some (l, d) => if l == f.loc then d else lookup disc f.loc
-        | none => lookup disc f.loc) = lookup disc f.loc := by
-      cases cache with
-      | none => rfl
-      | some ld =>
-        obtain ⟨l, d⟩ := ld
-        by_cases h : (l == f.loc) = true
-        · have hl : l = f.loc := by simpa using h
-          have hd' := hc l d rfl
-          rw [hl] at hd'
-          simp only [h, if_true]
-          exact hd'
-        · simp only [h]
-          rfl
     unfold checkFrom
-    simp only [hd, Bool.and_eq_true, List.mem_cons]
+    simp only [cacheLookup_eq disc cache f.loc hc, Bool.and_eq_true, List.mem_cons]
     rw [ih (some (f.loc, lookup disc f.loc)) (by
       intro l d h
       cases h
